@@ -22,6 +22,18 @@ CLAIMED = {
                      "attribute-dependence comparison of sibling methods (stdlib ast)",
         "design_ref": "DESIGN.md section 3, C12",
     },
+    "C01": {
+        "text": "Decides the code-shape premises D1-D6 of the inductive argument for C01 (holds after initialisation, preserved by every "
+                "update, nobody else touches the sets): package-wide ownership of the index sets / lmin and no mutation through the "
+                "getter; typestate of lmin; the refined index moves active->old as one tuple behind the is-active guard; a forward "
+                "neighbour is activated only after a loop over ALL dimensions found every backward neighbour in the OLD set or below "
+                "lmin; the stencil contribution is +1/-1 by stencil-sum parity (abstract interpretation, spelling-independent); the "
+                "stencil is {0} iff level <= lmin; returned grids pair key and coefficient. The arithmetic facts (coefficients sum to "
+                "1, closed form == adaptive initialisation) are NOT decided.",
+        "technique": "who-may-write / escape analysis over the package, CFG dominance + post-dominance, value-term identity, parity "
+                     "abstract interpretation of the sign expression, constant-set checks",
+        "design_ref": "DESIGN.md section 3, C01",
+    },
     "C05": {
         "text": "Decides structural clauses D1-D5 of C05: every accumulator (area, container, operation) receives the same "
                 "coefficient-weighted term in all four evaluation routines; removals subtract value and evaluations of the popped position "
